@@ -343,6 +343,10 @@ func checkC07(c *Ctx) {
 			{"default-from-input-list", "输入库存\n定义盒：\n\t其内容 = 库存\n令甲 = （新建盒）\n以库存（后增：2）\n令乙 = （新建盒）\n输出【甲之内容，乙之内容，库存】\n", `list[list[num(1)],list[num(1)],list[num(1),num(2)]]`, map[string]Val{"库存": List(Num(1))}},
 			{"default-from-input-dict", "输入库存\n定义盒：\n\t其册 = 【“甲” = 库存】\n令甲 = （新建盒）\n库存#“k” = 9\n令乙 = （新建盒）\n输出【甲之册，乙之册】\n", `list[dict["甲"=dict["k"=num(1)]],dict["甲"=dict["k"=num(1)]]]`, map[string]Val{"库存": Dict([]string{"k"}, []Val{Num(1)})}},
 			{"default-from-parameter", "如何造？\n\t输入料\n\t定义盒：\n\t\t其内容 = 料\n\t令甲 = （新建盒）\n\t以料（后增：2）\n\t令乙 = （新建盒）\n\t输出【甲之内容，乙之内容】\n令原 = 【1】\n输出（造：原）\n", `list[list[num(1)],list[num(1)]]`, nil},
+			{"literal-item-is-a-value/number", "令数 = 5\n输出【数，以数（自增：1），数】\n", `list[num(5),num(6),num(6)]`, nil},
+			{"literal-item-is-a-value/list", "令甲 = 【1】\n输出【甲，以甲（后增：2），甲】\n", `list[list[num(1)],list[num(1),num(2)],list[num(1),num(2)]]`, nil},
+			{"literal-item-is-a-value/dict", "令数 = 5\n输出【“a” = 数，“b” = 以数（自增：1），“c” = 数】\n", `dict["a"=num(5),"b"=num(6),"c"=num(6)]`, nil},
+			{"literal-item-is-a-value/nested", "令数 = 5\n令果 = 【【数】，以数（自减：2），【“k” = 数】】\n输出 果\n", `list[list[num(5)],num(3),dict["k"=num(3)]]`, nil},
 			{"default-from-element", "输入表\n定义盒：\n\t其内容 = 表#“货”\n令甲 = （新建盒）\n以表#“货”（后增：2）\n令乙 = （新建盒）\n输出【甲之内容，乙之内容】\n", `list[list[num(1)],list[num(1)]]`, map[string]Val{"表": Dict([]string{"货"}, []Val{List(Num(1))})}},
 		}
 		hreqs := make([]Req, len(hps))
